@@ -42,7 +42,21 @@ def sites(tree):
     """list of (description, mutator(tree_copy_node)) keyed by node index in ast.walk order"""
     out = []
     nodes = list(ast.walk(tree))
+    # not interesting: module-level assignments (logger, __all__, aliases), logging calls, decorator arguments
+    skip = set()
+    for n in tree.body:
+        if isinstance(n, (ast.Assign, ast.AugAssign, ast.AnnAssign)):
+            skip.update(id(x) for x in ast.walk(n))
+    for n in nodes:
+        if isinstance(n, (ast.FunctionDef, ast.AsyncFunctionDef, ast.ClassDef)):
+            for d in n.decorator_list:
+                skip.update(id(x) for x in ast.walk(d))
+        if isinstance(n, ast.Expr) and isinstance(n.value, ast.Call) and isinstance(n.value.func, ast.Attribute) \
+                and isinstance(n.value.func.value, ast.Name) and n.value.func.value.id in ("logger", "logging", "log"):
+            skip.update(id(x) for x in ast.walk(n))
     for i, n in enumerate(nodes):
+        if id(n) in skip:
+            continue
         if isinstance(n, ast.Compare):
             for j, op in enumerate(n.ops):
                 if type(op) in CMP:
